@@ -79,8 +79,10 @@ Apply(lv, ops) ==
 \* git numstat lists paths in sorted order; the order is irrelevant to the property (changes are compared as a set)
 Commit ==
   /\ lines = <<>> /\ n < MaxCommits
-  /\ \E a \in Authors, s \in Subjects, ops \in OpLists(live) :
-       LET c  == [rev |-> RevOf(n + 1), author |-> a, date |-> "2020-01-0" \o ToString(n + 1), subject |-> s]
+  \* the author date of a commit is not tied to its place in the log (a rebased or cherry-picked commit keeps the date
+  \* it was written on): every commit after the first carries its own day or the day before the first commit
+  /\ \E a \in Authors, s \in Subjects, ops \in OpLists(live), early \in (IF n = 0 THEN {FALSE} ELSE BOOLEAN) :
+       LET c  == [rev |-> RevOf(n + 1), author |-> a, date |-> IF early THEN "2019-12-31" ELSE "2020-01-0" \o ToString(n + 1), subject |-> s]
            cs == [i \in DOMAIN ops |-> ChangeOf(ops[i])]
        IN  /\ lines' = LinesOf(c, cs)
            /\ expected' = IF cs = <<>> THEN None
